@@ -125,7 +125,7 @@ def cases_for(rng, tier):
 
 
 DENSE_SHARE = 0.10                     # share of the mixed / sessions / tail / grow / tree histories that may create new-style groups
-DENSE_BUDGET = {"quick": 10, "thorough": 240}      # files judged by the Coq walker (about 5 s of one core each)
+DENSE_BUDGET = {"quick": 6, "thorough": 240}      # files judged by the Coq walker (about 5 s of one core each)
 DENSE_MAXSIZE = 1700000                # bytes handed to Coq per file (a file with three dense groups)
 
 
@@ -741,6 +741,8 @@ def run(ctx):
     walk_tie = c05walk.WalkTie(ctx)         # whole-file tie: the Coq walker Spec/Walk.v on a sample of the files
     dense_pending, dense_classes, dense_seen, dense_too_large = [], collections.Counter(), 0, 0
     dense_budget = DENSE_BUDGET.get(ctx.tier, 10)
+    import time as _time0
+    _tloop = _time0.time()
     try:
         for c, r in produce(H, cases + vcases):
             j = judge_vlen(c, r) if "datasets" in c else judge_file(c, r)
@@ -765,7 +767,7 @@ def run(ctx):
                 key = (c["sb"], c["gen"])
                 if res["size"] > DENSE_MAXSIZE:
                     dense_too_large += 1
-                elif len(dense_pending) < dense_budget and (dense_classes[key] == 0 or len(dense_pending) + 6 <= dense_budget or dense_seen % 7 == 0):
+                elif len(dense_pending) < dense_budget and (dense_classes[key] == 0 or len(dense_pending) < 0.8 * dense_budget or dense_seen % 7 == 0):
                     dense_classes[key] += 1
                     dense_pending.append((c, j, bytes(res["data"])))
             else:
@@ -807,6 +809,7 @@ def run(ctx):
     # ... and the Coq walker as the judge of the files with new-style groups
     import concurrent.futures as _cf, time as _time
     _t0 = _time.time()
+    loop_wall = round(_t0 - _tloop, 1)
     with _cf.ThreadPoolExecutor(2) as _ex:
         _fut = _ex.submit(walk_tie.finish)
         _futj = _ex.submit(c05walk.coq_judge, [d for _, _, d in dense_pending])
@@ -899,7 +902,7 @@ def run(ctx):
                        [dict(sb=c["sb"], gen="vlen", datasets=[dict(d, vals=d["vals"][:3]) for d in c["datasets"][:2]]) for c in vcases[:1]],
                superblock_versions=dict(sbs), generators=dict(gens), extents_total=nextents, unjudged_new_style_group_files=unjudged_dense, new_style_group_files=dense_seen,
                new_style_group_files_judged_by_coq_walker=dict(dense_stats, tags=dict(dense_tags), classes=len(dense_classes), too_large=dense_too_large, budget=dense_budget,
-                                                                wall_seconds_parallel_phase=dense_wall,
+                                                                wall_seconds_parallel_phase=dense_wall, wall_seconds_generation_and_python_walk=loop_wall,
                                                                 rule="files tools/h5spec.py cannot decode (new-style group): tolerant Spec.Walk.walk under vm_compute "
                                                                      "(Model/WalkJudgeTie.v); gate: accepted, walk_ok, tags listed, tree summary == oracle incl. the links of dense groups"), structure_kinds=dict(kinds),
                deviation_tags=dict(tagcount), files_failing=nbad, coq_extent_lists=len(samples), coq_checksum_vectors=len(vectors),
